@@ -428,8 +428,7 @@ def _mk_stft(rng, kind):
     if kind == "bad":
         b = rng.choice(["unknown", "unknown2", "no_size", "hop_gt", "hop_none", "ola_none_opt", "wa_size", "wa_scalar", "wa_empty"])
         if b == "unknown":
-            items.append([rng.choice(["foo", "olawnd", "ola", "window", "Size", "ol_a_x", "_ola_wnd"]) if ola == "absent" else
-                          rng.choice(["foo", "olawnd", "window", "Size", "ol_a_x", "_ola_wnd"]), rng.randint(0, 3)])
+            items.append([rng.choice(["foo", "olawnd", "window", "Size", "ol_a_x", "_ola_wnd", "ola_", "OLA_wnd"]), rng.randint(0, 3)])
         elif b == "unknown2":
             items.append(["zzz", 1])
             items.append(["ola_zzz", 2])
@@ -743,11 +742,19 @@ def _same_blocks(a, b, regime):
     return a is not None and b is not None and len(a) == len(b) and all(_same_list(x, y, regime) for x, y in zip(a, b))
 
 
+def _has_numpy():
+    import importlib.util
+    return importlib.util.find_spec("numpy") is not None
+
+
 def _compare_stft(c, io, drv):
     out = []
     regime = c.get("regime", "float")
     m, sp = drv["model"], drv["spec"]
     e = io.get("err")
+    needs_numpy = m.get("run_err") == "numpy-default" or ((m.get("run") or {}).get("err") or {}).get("tag") == "numpy-default"
+    if needs_numpy and _has_numpy():
+        return []       # the numpy defaults (rfft, fftshift, overlap_add.numpy) are not modelled
     if "phase" not in io:
         return [("model", "impl observation failed: %r" % (io,)), ("spec", "impl observation failed")]
     # ---- model -----------------------------------------------------------------------------------
